@@ -474,7 +474,16 @@ func (f *FuncVC) solveOne(o *Obligation, dir string, timeout time.Duration) {
 		}
 	}
 	if !decided {
-		if o.expectSat {
+		allErr := len(answers) > 0
+		for _, a := range answers {
+			if !strings.Contains(a, ":error") {
+				allErr = false
+			}
+		}
+		if o.expectSat && allErr {
+			o.Status = "undecided" // malformed query: nothing is known
+			o.Backend = "portfolio"
+		} else if o.expectSat {
 			o.Status = "discharged" // not refuted: reachable as far as the solvers can tell
 			o.Backend = "portfolio"
 		} else {
